@@ -1,5 +1,7 @@
 import A2Verif.Lemmas.NibbleRT
 import A2Verif.Lemmas.FlatLaws
+import A2Verif.Lemmas.Nibble35
+import A2Verif.Lemmas.TrackOps
 /-!
 # Property C08 — sector and block storage is exact and non-interfering
 
@@ -79,6 +81,42 @@ example : (match dec62 ((enc62 (List.replicate 256 0)).set 5 0x97) with | .error
     (match dec62 ((enc62 (List.replicate 256 0)).set 5 0xD5) with | .error .invalidByte => true | _ => false) = true := by
   decide +kernel
 
+
+/-!
+### The 3.5 inch 524-byte sector codec (`disk35.rs`)
+-/
+section codec35
+open A2Verif.Model.Nibble35
+
+/-- C08, clause "for all … 524-byte sector contents": for every list of 524 bytes (12 tag bytes + 512
+data bytes) `encode_sector_62` of disk35.rs yields 703 disk bytes (699 data + 4 checksum nibbles) which
+`decode_sector_62` accepts — no invalid byte, all three end-around-carry checksums agree — and decodes
+to the same 524 bytes.  Proved by induction over the 174 byte triples + the final pair with the
+invariant "decoder checksum state = encoder checksum state" (`dec35Loop_enc35Pre`, stated for an
+arbitrary starting state). -/
+theorem codec35_roundtrip (d : List Nat) (hlen : d.length = 524) (hb : ∀ x ∈ d, x < 256) :
+    ∃ ns, enc35 d = some ns ∧ ns.length = 703 ∧ dec35 ns = .ok d :=
+  dec35_enc35 d hlen hb
+
+example : (List.replicate 524 0xFF).length = 524 ∧ ∀ x ∈ List.replicate 524 0xFF, x < 256 := by
+  constructor
+  · exact List.length_replicate
+  · intro x hx; rw [List.eq_of_mem_replicate hx]; decide
+
+/-- every disk byte of a 3.5 inch data field is a 6&2 table entry: ≥ 0x96, high bit set, not `D5`/`AA` -/
+theorem enc35_bytes_clean (d ns : List Nat) (h : enc35 d = some ns) : ∀ y ∈ ns,
+    0x96 ≤ y ∧ y < 256 ∧ y &&& 0x80 = 0x80 ∧ y ≠ 0xD5 ∧ y ≠ 0xAA :=
+  A2Verif.Model.Nibble35.enc35_bytes_clean d ns h
+
+/-- not vacuous: changing one data nibble of the all-ones sector to another valid disk byte is a
+checksum error, a non-table byte is an invalid byte -/
+example : (match enc35 (List.replicate 524 0xFF) with
+    | some ns => (match dec35 (ns.set 1 0x96), dec35 (ns.set 1 0xD5) with
+      | .error .badChecksum, .error .invalidByte => true
+      | _, _ => false)
+    | none => false) = true := by decide +kernel
+
+end codec35
 
 /-!
 ## Part 2: the flat formats (DO, PO, D13, IMG, 2MG with DO/PO payload)
@@ -271,5 +309,110 @@ theorem flat_refusal_current_tree :
   · exact img_sector_refused
 
 end flat
+
+
+/-!
+## Part 3: the circular bit track of disk525.rs (NIB / WOZ 5.25 inch tracks)
+
+`Model.Track` is the code of `TrackBits` written against an abstract bit head; the theorems are about its
+head-relative list instance `Trk`, the driver runs the array instance (absolute buffer + bit pointer) and
+is compared with the real object after random op sequences (`c08 trk`).  A *cell* `(z, b)` is `z` zero
+bits followed by the 8 bits of a byte with the high bit set; `stream` turns cells into bits.
+-/
+section track
+open A2Verif.Model.Track A2Verif.Model.Nibble
+
+/-- C08/track, "from an aligned position the latch returns the next cell's byte": with the head at a
+cell boundary `read_latch` skips the cell's zero bits, returns its byte and stops at the next boundary. -/
+theorem track_latch_aligned (t : Trk) (c : Cell) (cs : List Cell) (hv : ValidCell c) (h : t.bits = stream (c :: cs)) :
+    (readLatch1 t).1 = c.2 ∧ (readLatch1 t).2.bits = stream (cs ++ [c]) :=
+  readLatch1_cell t c cs hv h
+
+example : ValidCell (2, 0xd5) ∧ (readLatch1 (⟨stream [(2, 0xd5), (0, 0xaa)], 0⟩ : Trk)).1 = 0xd5 := by
+  constructor
+  · exact ⟨by decide, by decide⟩
+  · decide +kernel
+
+/-- C08/track, the byte pattern search: it stops just behind the first cell that completes the pattern,
+provided the matcher does not complete inside the cells before it (`runM … = some m`). -/
+theorem track_find_pattern (f : Fmt) (patt mask : List Nat) (cap : Option Nat) (t : Trk) (pre : List Cell) (c : Cell)
+    (cs : List Cell) (m : Nat) (hp : patt.length ≠ 0) (hv : ∀ x ∈ pre ++ [c], ValidCell x)
+    (h : t.bits = stream (pre ++ c :: cs)) (hr : runM patt mask 0 (pre.map (·.2)) = some m)
+    (hs : stepM patt mask m c.2 = patt.length) (hf : pre.length + 1 ≤ f.maxTries) (hc : capOk cap (pre.length + 1)) :
+    (findPat f patt mask cap t).1 = true ∧ (findPat f patt mask cap t).2.bits = stream (cs ++ pre ++ [c]) :=
+  findPat_hit f patt mask cap t pre c cs m hp hv h hr hs hf hc
+
+/-- C08/track, "the prolog search finds the unique address field of (track, sector)": on a `Formatted`
+track — whatever operation left the head wherever in a data field or gap — `find_sector` succeeds for
+every sector on the track (also the one the head is in: once around) and stops just behind that sector's
+address epilog.  Uses: no `D5` in data fields / address bytes / sync, so only prologs start a match. -/
+theorem track_find_sector (f : Fmt) (vol trk : Nat) (hv : vol < 256) (ht : trk < 256) (t : Trk) (cur : Sec)
+    (others : List Sec) (hF : Formatted f vol trk t cur others) (tgt : Sec) (rest : List Sec)
+    (hcase : (∃ l1 l2, others = l1 ++ tgt :: l2 ∧ rest = l2 ++ cur :: l1) ∨ (tgt = cur ∧ rest = others)) :
+    ∃ t1 : Trk, findSector f trk tgt.id t = (.ok (), t1) ∧ AfterFind f vol trk t1 tgt rest :=
+  findSector_formatted f vol trk hv ht t cur others hF tgt rest hcase
+
+/-- C08/track, reading: the result is the decoding of the nibbles the sector holds, no cell changes, the
+track stays `Formatted` (the carried-over head position is part of the state). -/
+theorem track_read_sector (f : Fmt) (vol trk : Nat) (hv : vol < 256) (ht : trk < 256) (t : Trk) (cur : Sec)
+    (others : List Sec) (hF : Formatted f vol trk t cur others) (tgt : Sec) (rest : List Sec)
+    (hcase : (∃ l1 l2, others = l1 ++ tgt :: l2 ∧ rest = l2 ++ cur :: l1) ∨ (tgt = cur ∧ rest = others)) :
+    ∃ t' : Trk, readSector f trk tgt.id t = (decRes f tgt.nibs, t') ∧ Formatted f vol trk t' tgt rest :=
+  readSector_formatted f vol trk hv ht t cur others hF tgt rest hcase
+
+/-- C08/track, "`write_sector` rewrites exactly the data field cells and preserves `Formatted`": the new
+state has the same sectors with the same nibbles except that the target holds `enc62 dat`. -/
+theorem track_write_sector (f : Fmt) (h6 : f.six = true) (hs : 8 ≤ f.syncBits) (vol trk : Nat) (hv : vol < 256)
+    (ht : trk < 256) (t : Trk) (cur : Sec) (others : List Sec) (hF : Formatted f vol trk t cur others) (tgt : Sec)
+    (rest : List Sec)
+    (hcase : (∃ l1 l2, others = l1 ++ tgt :: l2 ∧ rest = l2 ++ cur :: l1) ∨ (tgt = cur ∧ rest = others))
+    (dat : List Nat) (hd : dat.length = 256) :
+    ∃ t' : Trk, writeSector f dat trk tgt.id t = (.ok (), t') ∧
+      Formatted f vol trk t' { tgt with nibs := enc62 dat } rest :=
+  writeSector_formatted f h6 hs vol trk hv ht t cur others hF tgt rest hcase dat hd
+
+/-- C08/track, read-after-write and frame on one track: after writing `dat` to sector `tgt` of a
+`Formatted` 6&2 track, (1) reading that sector (once around the track) returns exactly `dat`, and
+(2) reading any other sector `s` returns the decoding of the nibbles it held before the write; after
+either read the track is `Formatted` again, so the statement applies to the next operation — i.e. to
+any order of reads and writes. -/
+theorem track_read_after_write_and_frame (f : Fmt) (h6 : f.six = true) (hs : 8 ≤ f.syncBits) (vol trk : Nat)
+    (hv : vol < 256) (ht : trk < 256) (t : Trk) (cur : Sec) (others : List Sec)
+    (hF : Formatted f vol trk t cur others) (tgt : Sec) (rest : List Sec)
+    (hcase : (∃ l1 l2, others = l1 ++ tgt :: l2 ∧ rest = l2 ++ cur :: l1) ∨ (tgt = cur ∧ rest = others))
+    (dat : List Nat) (hd : dat.length = 256) (hb : ∀ x ∈ dat, x < 256) :
+    ∃ t' : Trk, writeSector f dat trk tgt.id t = (.ok (), t') ∧
+      (∃ t'', readSector f trk tgt.id t' = (.ok dat, t'') ∧
+        Formatted f vol trk t'' { tgt with nibs := enc62 dat } rest) ∧
+      (∀ (s : Sec) (l1 l2 : List Sec), rest = l1 ++ s :: l2 →
+        ∃ t'', readSector f trk s.id t' = (decRes f s.nibs, t'') ∧
+          Formatted f vol trk t'' s (l2 ++ { tgt with nibs := enc62 dat } :: l1)) := by
+  obtain ⟨t', w1, w2⟩ := writeSector_formatted f h6 hs vol trk hv ht t cur others hF tgt rest hcase dat hd
+  refine ⟨t', w1, ?_, ?_⟩
+  · obtain ⟨t'', r1, r2⟩ := readSector_formatted f vol trk hv ht t' _ rest w2 { tgt with nibs := enc62 dat } rest
+      (Or.inr ⟨rfl, rfl⟩)
+    refine ⟨t'', ?_, r2⟩
+    rw [r1]
+    have : decRes f (enc62 dat) = .ok dat := by
+      simp only [decRes, h6, if_true, dec62_enc62 dat hd hb]
+    exact Prod.ext this rfl
+  · intro s l1 l2 hr
+    exact readSector_formatted f vol trk hv ht t' _ rest w2 s _ (Or.inl ⟨l1, l2, hr, rfl⟩)
+
+/-- `Formatted` is not vacuous: a two-sector WOZ-style track (10-bit sync) with the head in the gap
+behind sector 0 -/
+example : Formatted ⟨true, 10, 6646⟩ 254 17
+    ⟨stream (syncCells ⟨true, 10, 6646⟩ 20 ++
+      secsCells ⟨true, 10, 6646⟩ 254 17 [⟨1, enc62 (List.replicate 256 7), 60⟩] ++
+      addrCells ⟨true, 10, 6646⟩ 254 17 0 ++ fieldCells ⟨true, 10, 6646⟩ (enc62 (List.replicate 256 0))), 0⟩
+    ⟨0, enc62 (List.replicate 256 0), 20⟩ [⟨1, enc62 (List.replicate 256 7), 60⟩] := by
+  refine ⟨syncCells _ 20, fieldCells _ _, rfl, quiet_gap _ 20, rfl, ?_, by decide, by decide⟩
+  intro s hs
+  simp only [List.mem_cons, List.not_mem_nil, or_false] at hs
+  rcases hs with h | h <;> subst h
+  · exact goodSec_enc62 _ rfl 0 20 _ (by decide) (by decide)
+  · exact goodSec_enc62 _ rfl 1 60 _ (by decide) (by decide)
+
+end track
 
 end A2Verif.C08
